@@ -494,6 +494,7 @@ def catalogue():
     add('svd(2x3), concrete V0', _svd_wide, shape=(2, 3), group='factor', tags=['fac:svd', 'Dmax2', 'D1only', 'fixedrot'], consts={'cv': (2,), 'c0': (2, 3), 'c1': (2, 3), 'c2': (3, 3)})
     add('svd-values(2x3), concrete V0', _svd_vals, shape=(2, 3), group='factor', tags=['fac:svd', 'Dmax2', 'fixedrot'])
     add('svd-values(2x2)', _svd_vals, shape=(2, 2), group='factor', tags=['fac:svd', 'Dmax2'])
+    add('lu(3x3), base points whose pivot order is a 3-cycle', _lu, shape=(3, 3), group='factor', tags=['lu', 'pivot-cycle', 'Dmax2'], consts={'cl': (3, 3), 'cu': (3, 3)})
     add('lu(2x2)', _lu, shape=(2, 2), group='factor', tags=['lu'], consts={'cl': (2, 2), 'cu': (2, 2)})
     # ---- fft (complex intermediates, real inputs and outputs) ---------------------------
     add('real(fft(x,axis=0))', lambda A, x: A.real(A.fft.fft(x, axis=0)), shape=(2, 2), group='fft')
